@@ -69,4 +69,3 @@ func vpN() int {
 	}
 	return 10
 }
-
